@@ -12,6 +12,7 @@ Follows the Go code statement by statement; core Lean only.
   mergeSegmentIterator.next              row.go       (reducer of every bitmap call, executeBitmapCall)
   bool OR reducer                        executor.go  executeClearRow / executeSetRow
   mapReduce with failover, shardsByNode  executor.go  transition system over response events (mrStep)
+  executeTopN / executeTopNShards        executor.go  two-pass TopN protocol (executeTopNModel)
   mapReduce / mapperLocal                executor.go  result = fold of reduceFn over arrival order,
                                                        starting from nil (= zero value)
 int64 / uint64 are modelled as Int / Nat (no wrap-around: counts are bounded by 2^20 per shard
@@ -284,5 +285,55 @@ def mrRun {α : Type} (f : α → α → α) (e : α) (val : Nat → α) (owners
 def mapReduceFailover {α : Type} (f : α → α → α) (e : α) (val : Nat → α) (nodes : List Nat)
     (owners : Nat → List Nat) (shards : List Nat) (evs : List (Nat × Bool)) : MROut α :=
   mrRun f e val owners shards.length (mrStart e nodes owners shards) evs
+
+/-! ### `executeTopN`: the two-pass TopN protocol.
+
+```go
+pairs := executeTopNShards(c, shards)              // pass 1: map-reduce of per-shard top lists, Pairs.Add, sort
+if len(pairs) == 0 || len(idsArg) > 0 || opt.Remote { return pairs }   // a remote node returns ALL it merged
+other.Args["ids"] = sorted keys of pairs           // every candidate id
+trimmed := executeTopNShards(other, shards)        // pass 2: exact counts of the candidates on every shard
+if n != 0 && n < len(trimmed) { trimmed = trimmed[0:n] }
+```
+A shard is given by its full list of (row id, count). `fragment.top` without ids is abstracted to
+"the best `n` rows of the shard's ranking" (`topShard`; n = 0: all), with ids to "the exact counts
+of those ids, untruncated" (`topShardIds`). `sort.Sort(Pairs)` orders by count only; the order among
+equal counts is unspecified in Go, the model breaks ties by ascending id. -/
+
+def pairBefore (a b : Pair) : Bool :=
+  a.count > b.count || (a.count == b.count && a.id ≤ b.id)
+
+def insertDesc (p : Pair) : List Pair → List Pair
+  | [] => [p]
+  | q :: qs => if pairBefore p q then p :: q :: qs else q :: insertDesc p qs
+
+/-- `sort.Sort(Pairs(..))`. -/
+def sortPairs (l : List Pair) : List Pair := l.foldr insertDesc []
+
+def trimN (n : Nat) (l : List Pair) : List Pair := if n ≠ 0 ∧ n < l.length then l.take n else l
+
+def topShard (n : Nat) (data : List Pair) : List Pair :=
+  trimN n (sortPairs (data.filter (fun p => p.count > 0)))
+
+def topShardIds (ids : List Nat) (data : List Pair) : List Pair :=
+  data.filter (fun p => p.count > 0 && ids.contains p.id)
+
+/-- `executeTopNShards`: every node reduces its shards' lists from nil; a remote node sorts what it
+merged before returning it (`remote g`), the local node's partial result is used as it is; the
+coordinator reduces the node results from nil and sorts. -/
+def topNShards (perShard : List Pair → List Pair) (remote : List (List Pair) → Bool)
+    (groups : List (List (List Pair))) : List Pair :=
+  sortPairs (reduceAll pairsAdd [] (groups.map (fun g =>
+    let r := reduceAll pairsAdd [] (g.map perShard)
+    if remote (g.map perShard) then sortPairs r else r)))
+
+def sortedKeys (l : List Pair) : List Nat :=
+  (l.map (·.id)).foldl (fun acc x => insertCol x acc) []
+
+def executeTopNModel (n : Nat) (remote : List (List Pair) → Bool) (groups : List (List (List Pair))) :
+    List Pair :=
+  let pairs := topNShards (topShard n) remote groups
+  if pairs.isEmpty then pairs
+  else trimN n (topNShards (topShardIds (sortedKeys pairs)) remote groups)
 
 end PV.C17
